@@ -129,11 +129,31 @@ func (w *vC10GateWitness) ServeDNS(ctx context.Context, ch *middleware.Chain) {
 	}
 	resp := vC10Reply(req, 0)
 	resp.RecursionAvailable = true
+	// reply shapes, named by the second label of the question: "grown" — an RRset under a long owner
+	// name whose UNCOMPRESSED size exceeds 4096 octets while its wire form is about half that (what a
+	// transport that packs into a fixed buffer must still deliver whole); "big" — larger than 4096
+	// octets on the wire too. Every record repeats the question name, so a reply identifies itself.
+	if labels := dns.SplitDomainName(name); len(labels) > 1 && (labels[1] == "grown" || labels[1] == "big") {
+		n := vC10PooledGrownRecords
+		if labels[1] == "big" {
+			n = vC10PooledBigRecords
+		}
+		for len(resp.Answer) < n {
+			resp.Answer = append(resp.Answer, &dns.TXT{Hdr: dns.RR_Header{Name: name, Rrtype: dns.TypeTXT, Class: dns.ClassINET, Ttl: 300}, Txt: []string{name}})
+		}
+		resp.Compress = true
+	}
 	_ = ch.Writer.WriteMsg(resp)
 	ch.Cancel()
 }
 
+const (
+	vC10PooledGrownRecords = 22
+	vC10PooledBigRecords   = 48
+)
+
 type vC10PReq struct {
+	shape  string // "", "grown", "big"
 
 	r      int
 	kind   string
@@ -214,7 +234,29 @@ func TestVerifC10Pooled(t *testing.T) {
 			f.Write(append(b, '\n'))
 		}
 	}()
-	for cn := 0; cn < n; cn++ {
+	// corpus: explicit request sequences (kind, reply shape), each request answered before the next begins
+	type pooledCorpus struct {
+		Name string     `json:"name"`
+		Reqs [][]string `json:"reqs"`
+	}
+	var corpus []pooledCorpus
+	if dir := os.Getenv("VERIF_CORPUS"); dir != "" {
+		if b, err := os.ReadFile(dir + "/pooled-regressions.json"); err == nil {
+			_ = json.Unmarshal(b, &corpus)
+		}
+	}
+	for cn := -len(corpus); cn < n; cn++ {
+		var forceKind, forceShape []string
+		corpusName := ""
+		if cn < 0 {
+			c := corpus[cn+len(corpus)]
+			corpusName = c.Name
+			for _, rq := range c.Reqs {
+				if len(rq) == 2 {
+					forceKind, forceShape = append(forceKind, rq[0]), append(forceShape, rq[1])
+				}
+			}
+		}
 		chainID := map[*middleware.Chain]int{}
 		msgID := map[*dns.Msg]int{}
 		var ops, obs, mops, mobs, xops, xobs []string
@@ -228,7 +270,7 @@ func TestVerifC10Pooled(t *testing.T) {
 		kinds := map[string]int{}
 		goFail, inconclusive := "", false
 		var qconns []*quic.Conn
-		useDoQ := qaddr != "" && r.Intn(4) != 0
+		useDoQ := qaddr != "" && (r.Intn(4) != 0 || cn < 0)
 		if useDoQ {
 			for i := 0; i < 2; i++ {
 				ctx, cancel := context.WithTimeout(context.Background(), 3*time.Second)
@@ -248,11 +290,28 @@ func TestVerifC10Pooled(t *testing.T) {
 			next++
 			q := &vC10PReq{r: next, done: make(chan struct{}), id: uint16(r.Intn(65000) + 1)}
 			q.name = fmt.Sprintf("p%d-c%d-s%d.pooled.c10.test.", next, cn, seed)
+			if len(forceShape) > 0 {
+				q.shape, forceShape = forceShape[0], forceShape[1:]
+			} else if k := r.Intn(12); k < 2 {
+				q.shape = "grown"
+			} else if k == 2 {
+				q.shape = "big"
+			}
+			if q.shape != "" {
+				q.name = fmt.Sprintf("p%d-c%d-s%d.%s.%s.pooled.c10.test.", next, cn, seed, q.shape, strings.Repeat("x", 60))
+				kinds["reply-"+q.shape]++
+			}
 			kindsAvail := []string{"doh-post", "doh-get", "doh-json"}
 			if useDoQ {
 				kindsAvail = append(kindsAvail, "doq", "doq", "doq")
 			}
 			q.kind = kindsAvail[r.Intn(len(kindsAvail))]
+			if len(forceKind) > 0 {
+				if forceKind[0] != "doq" || useDoQ {
+					q.kind = forceKind[0]
+				}
+				forceKind = forceKind[1:]
+			}
 			kinds[q.kind]++
 			m := new(dns.Msg)
 			m.SetQuestion(q.name, dns.TypeTXT)
@@ -412,6 +471,10 @@ func TestVerifC10Pooled(t *testing.T) {
 					m := new(dns.Msg)
 					if m.Unpack(q.body) == nil && len(m.Question) == 1 {
 						gotName, gotID = m.Question[0].Name, int(m.Id)
+						want := map[string]int{"": 1, "grown": vC10PooledGrownRecords, "big": vC10PooledBigRecords}[q.shape]
+						if len(m.Answer) != want && !m.Truncated && goFail == "" {
+							goFail = fmt.Sprintf("request %d (%s, %s reply): the reply about %q carries %d answer records, the resolver wrote %d", q.r, q.kind, q.shape, gotName, len(m.Answer), want)
+						}
 						// what the edns wrapper shows of the client: the OPT facts of THIS request
 						// (a wrapper holding another request's facts answers an OPT-less query with an
 						// OPT, or echoes the other client's DO bit)
@@ -463,6 +526,15 @@ func TestVerifC10Pooled(t *testing.T) {
 		}
 
 		nops := 6 + r.Intn(12)
+		if cn < 0 {
+			nops = 0
+			for len(forceKind) > 0 && !inconclusive && goFail == "" {
+				start()
+				if len(live) > 0 {
+					finish(0)
+				}
+			}
+		}
 		for op := 0; op < nops && !inconclusive && goFail == ""; op++ {
 			if len(live) == 0 || (len(live) < 5 && r.Intn(5) < 3) {
 				start()
@@ -483,6 +555,9 @@ func TestVerifC10Pooled(t *testing.T) {
 		kind := "pooled-doh"
 		if useDoQ {
 			kind = "pooled-doh-doq"
+		}
+		if corpusName != "" {
+			kind = "corpus:" + corpusName
 		}
 		line := map[string]any{
 			"k":          kind,
